@@ -569,8 +569,12 @@ func init() {
 						}
 					}
 					for di, ds := range sets {
-						for _, variant := range []string{"plain", "fwdlost", "recvcfg", "mixed", "burst", "burstwrap", "wrap", "relfrag", "relfragburst"} {
-							if !full && variant != "plain" && di%3 != 0 {
+						for _, variant := range []string{"plain", "fwdlost", "recvcfg", "mixed", "burst", "burstwrap", "wrap", "relfrag", "relfragburst", "mixedburst", "mixedfwdlost"} {
+							sel := 0
+							if strings.HasPrefix(variant, "mixed") && variant != "mixed" {
+								sel = 1 // neighbouring messages of different ordering lost together: one (I-)FORWARD-TSN reports both
+							}
+							if !full && variant != "plain" && di%3 != sel {
 								continue
 							}
 							if only := os.Getenv("VF_ONLY"); only != "" && !strings.Contains(variant, only) {
@@ -595,6 +599,10 @@ func init() {
 								x.Burst, x.SeqWrap = true, 1+di%3
 							case "wrap":
 								x.SeqWrap = 1 + di%3
+							case "mixedburst":
+								x.Mixed, x.Burst = true, true
+							case "mixedfwdlost":
+								x.Mixed, x.DropFwd = true, 1
 							case "relfrag":
 								x.RelFrag = true
 							case "relfragburst":
